@@ -445,7 +445,12 @@ def diff_views(mv: Dict[str, Any], cv: Dict[str, Any]) -> Optional[Dict[str, Any
     if mv['anchors'] != cv['anchors']:
         d['anchors'] = {'model_only': sorted(set(mv['anchors']) - set(cv['anchors']))[:10],
                         'impl_only': sorted(set(cv['anchors']) - set(mv['anchors']))[:10]}
-    if mv['entries'] != cv['entries']:
+    # class signature: the model lists the links to the base OBJECTS; generic arguments (`Base[T]`) are cross
+    # references resolved by the annotation linker: impl may have more (they are checked by the crawler oracle)
+    extra_sig = {e for e in cv['entries'] - mv['entries'] if e[1] == P['class_signature']}
+    if mv['entries'] != cv['entries'] - extra_sig:
+        cv = dict(cv)
+        cv['entries'] = cv['entries'] - extra_sig
         def show(s: Set[Any]) -> List[Any]:
             return sorted([[e[0], PNAME.get(e[1], e[1]), e[2], e[3], e[4]] for e in s], key=str)[:12]
         d['entries'] = {'model_only': show(mv['entries'] - cv['entries']), 'impl_only': show(cv['entries'] - mv['entries'])}
